@@ -18,6 +18,13 @@ Sub-checks (names usable with --only):
             per-word automaton, the level at which a wrong factor automaton is visible even if
             another pin word of the same permutation would mask it)
   history   BFS over histories of database / cache operations
+  forms     the same basis as list / tuple / set / frozenset / one-shot iterators / Basis / reversed /
+            with a repeated element / by keyword, through every entry point
+  fresh     the list returned by pinwords_for_basis is damaged in place, everything asked again
+            (VERIF_C15_FRESH_TABLES=1 also damages the tables returned by the *_mapping functions;
+            off by default: the current tree hands out its cached tables, see the report)
+  abort     a BaseException at every k-th call event inside an operation, then read-back of automata
+            and verdicts; every truncation of a stored automaton text (violations: abort, truncate)
 """
 from __future__ import annotations
 
@@ -856,6 +863,444 @@ def shard_history(shard):
 
 
 # --------------------------------------------------------------------------------------------
+# FORMS: the same basis handed over in every argument form
+# --------------------------------------------------------------------------------------------
+
+FORM_NAMES = ["list", "tuple", "set", "frozenset", "iter", "genexp", "map", "Basis", "reversed",
+              "repeated", "keyword"]
+FORM_BASES_QUICK = [
+    [(1, 0), (0, 1)],
+    [(0, 1, 2), (2, 1, 0)],
+    [(0, 2, 1), (1, 0, 2), (1, 2, 0)],
+    [(1, 3, 0, 2), (0, 1, 2), (2, 0, 3, 1)],          # lengths 4, 3, 4: not grouped by length
+]
+FORM_BASES_THOROUGH = FORM_BASES_QUICK + [
+    [(0, 1, 2), (1, 3, 0, 2), (2, 3, 0, 1)],
+    [(3, 0, 1, 2), (0, 2, 1), (1, 2, 3, 0)],
+    [(0, 1, 2, 3), (0, 1, 3, 2), (0, 2, 1, 3), (0, 2, 3, 1), (0, 3, 1, 2)],
+    [(2, 0, 3, 1), (0, 1), (1, 3, 0, 2)],            # non-minimal: 01 makes the others redundant
+    [(1, 3, 0, 4, 2), (0, 1, 2), (2, 4, 1, 3, 0)],
+]
+
+
+def make_form(name, B):
+    """A fresh argument object (one-shot forms must be new for every call)."""
+    from permuta import Basis
+    if name == "list" or name == "keyword":
+        return list(B)
+    if name == "tuple":
+        return tuple(B)
+    if name == "set":
+        return set(B)
+    if name == "frozenset":
+        return frozenset(B)
+    if name == "iter":
+        return iter(list(B))
+    if name == "genexp":
+        return (b for b in list(B))
+    if name == "map":
+        return map(lambda b: b, list(B))
+    if name == "Basis":
+        return Basis(*B)
+    if name == "reversed":
+        return list(reversed(B))
+    if name == "repeated":
+        return list(B) + [B[0]]
+    if name == "of_length":
+        return type(B[0]).of_length(len(B[0]))
+    raise ValueError(name)
+
+
+def check_forms(part, basis, tag, only_form=None, only_entry=None):
+    PW, Perm = _PW(), _P()
+    basis = [tuple(p) for p in basis]
+    B = [Perm(p) for p in basis]
+    fresh_dir(tag)
+    _clear(PW.load_dfa_for_perm)
+    if BASE_ATTRS is not None:
+        _restore_attrs(BASE_ATTRS)
+    try:
+        REF = PW.make_dfa_for_basis_from_pinwords(list(B))
+        PREF = to_plain(REF)
+    except Exception as exc:  # noqa
+        part.violation("construct", {"basis": basis, "route": "forms-reference"}, {"exception": repr(exc)})
+        return
+    fin = F.rejected_language_shape(PREF, F.m_reference())[0]
+    refwords = sorted(u for p in set(basis) for u in ref_pinwords(len(p)) if F.decode_pinword(u) == p)
+    names = list(FORM_NAMES)
+    if sorted(basis) == sorted(R.perms(len(basis[0]))):
+        names.append("of_length")          # the library's own generator of exactly this basis
+    states = 0
+    for name in names:
+        if only_form is not None and name != only_form:
+            continue
+        kw = name == "keyword"
+        entries = [
+            ("from_pinwords", "dfa", lambda f: PW.make_dfa_for_basis_from_pinwords(basis=f) if kw
+             else PW.make_dfa_for_basis_from_pinwords(f)),
+            ("from_db", "dfa", lambda f: PW.make_dfa_for_basis_from_db(basis=f) if kw
+             else PW.make_dfa_for_basis_from_db(f)),
+            ("make_dfa_for_basis", "dfa", lambda f: PW.make_dfa_for_basis(basis=f, use_db=False) if kw
+             else PW.make_dfa_for_basis(f)),
+            ("make_dfa_for_basis_db", "dfa", lambda f: PW.make_dfa_for_basis(basis=f, use_db=True) if kw
+             else PW.make_dfa_for_basis(f, True)),
+            ("has_finite_pinperms", "fin", lambda f: PW.has_finite_pinperms(basis=f) if kw
+             else PW.has_finite_pinperms(f)),
+            ("has_finite_pinperms_db", "fin", lambda f: PW.has_finite_pinperms(basis=f, use_db=True) if kw
+             else PW.has_finite_pinperms(f, True)),
+            ("has_finite_pinperms_dfa", "fin", lambda f: PW.has_finite_pinperms(basis=f, dfa=REF) if kw
+             else PW.has_finite_pinperms(f, False, REF)),
+            ("pinwords_for_basis", "words", lambda f: PW.pinwords_for_basis(basis=f) if kw
+             else PW.pinwords_for_basis(f)),
+        ]
+        for ename, kind, call in entries:
+            if only_entry is not None and ename != only_entry:
+                continue
+            if ename == "make_dfa_for_basis" and name not in ("keyword", "iter", "set"):
+                continue        # the dispatcher adds nothing to from_pinwords for the other forms
+            case = {"basis": basis, "form": name, "entry": ename}
+            try:
+                got = call(make_form(name, B))
+            except Exception as exc:  # noqa
+                part.violation("forms", case, {"exception": repr(exc)})
+                part.add(1, 1)
+                continue
+            part.add(1, 1)
+            if kind == "dfa":
+                try:
+                    word, n = F.first_difference(PREF, to_plain(got))
+                except Exception as exc:  # noqa
+                    part.violation("forms", case, {"exception": repr(exc)})
+                    continue
+                states += n
+                if word is not None:
+                    part.violation("forms", case, {"shortest_word_distinguishing_from_list_form": word,
+                                                   "list_form_accepts": PREF.run(word)})
+            elif kind == "fin":
+                if got is not fin:
+                    part.violation("forms", case, {"expected": fin, "got": got})
+            else:
+                try:
+                    gw = sorted(set(got))
+                except Exception as exc:  # noqa
+                    part.violation("forms", case, {"exception": repr(exc)})
+                    continue
+                exp = refwords
+                if name == "Basis":     # a Basis object drops non-minimal elements
+                    kept = {tuple(x) for x in make_form(name, B)}
+                    exp = sorted(u for q in kept for u in ref_pinwords(len(q))
+                                 if F.decode_pinword(u) == q)
+                if gw != exp:
+                    part.violation("forms", case, {"missing": [u for u in exp if u not in gw][:5],
+                                                   "extra": [u for u in gw if u not in exp][:5]})
+    part.bump("product_states", states)
+
+
+def shard_forms(shard):
+    idx, basis = shard
+    part = Partial()
+    check_forms(part, basis, "f%d" % idx)
+    return part
+
+
+# --------------------------------------------------------------------------------------------
+# FRESH: results that are mutable containers are damaged in place, then everything is asked again
+# --------------------------------------------------------------------------------------------
+
+def check_fresh(part, basis, tag, damage_tables):
+    """pinwords_for_basis returns a list: clear it / append to it, ask again.  With damage_tables
+    (flag VERIF_C15_FRESH_TABLES=1, off by default - see the report) the dicts returned by the
+    public, lru-cached table functions are damaged as well before the automaton is rebuilt."""
+    PW, Perm = _PW(), _P()
+    basis = [tuple(p) for p in basis]
+    B = [Perm(p) for p in basis]
+    fresh_dir(tag)
+    _clear(PW.load_dfa_for_perm)
+    PREF = to_plain(PW.make_dfa_for_basis(list(B)))
+    fin = F.rejected_language_shape(PREF, F.m_reference())[0]
+    refwords = sorted(u for p in set(basis) for u in ref_pinwords(len(p)) if F.decode_pinword(u) == p)
+
+    def ask(stage):
+        case = {"basis": basis, "after": stage, "damage_tables": damage_tables}
+        try:
+            w = PW.pinwords_for_basis(list(B))
+            ok_w = sorted(set(w)) == refwords
+            a = to_plain(PW.make_dfa_for_basis(list(B)))
+            d = to_plain(PW.make_dfa_for_basis(tuple(B), use_db=True))
+            v = (PW.has_finite_pinperms(list(B)), PW.has_finite_pinperms(list(B), use_db=True))
+        except Exception as exc:  # noqa
+            part.violation("fresh", case, {"exception": repr(exc)})
+            return None
+        part.add(1, 1)
+        wa, _ = F.first_difference(PREF, a)
+        wd, _ = F.first_difference(PREF, d)
+        if not ok_w or wa is not None or wd is not None or v != (fin, fin):
+            part.violation("fresh", case, {"pinwords_ok": ok_w, "scratch_differs_on": wa,
+                                           "db_differs_on": wd, "verdicts": v, "expected": fin})
+        return w
+
+    w = ask("nothing")
+    if w is not None:
+        w.clear()
+        w = ask("pinwords_for_basis(...).clear()")
+    if w is not None:
+        w.append("1")
+        w.reverse()
+        ask("pinwords_for_basis(...) appended/reversed")
+    if damage_tables:
+        saved = []
+        for n in sorted({len(p) for p in basis}):
+            for fn in (PW.perm_to_pinword_mapping, PW.perm_to_strict_pinword_mapping,
+                       PW.pinword_to_perm_mapping):
+                table = fn(n)
+                saved.append((table, dict(table)))
+                for val in table.values():
+                    if isinstance(val, set):
+                        val.clear()
+                table.clear()
+        ask("tables returned by *_mapping(n) cleared (nested sets too)")
+        for fn in (PW.perm_to_pinword_mapping, PW.perm_to_strict_pinword_mapping,
+                   PW.pinword_to_perm_mapping):
+            _clear(fn)
+
+
+def shard_fresh(shard):
+    idx, basis, damage = shard
+    part = Partial()
+    check_fresh(part, basis, "r%d" % idx, damage)
+    return part
+
+
+# --------------------------------------------------------------------------------------------
+# ABORT: a BaseException raised at the k-th call event inside an operation, then read back
+# --------------------------------------------------------------------------------------------
+
+class _Abort(BaseException):
+    pass
+
+
+def _run_with_abort(fn, k, root):
+    """Run fn(); raise _Abort at the k-th 'call' event of a frame whose code lives under root
+    (k=None: never).  Returns (finished?, number of such events seen)."""
+    import sys
+    seen = [0]
+
+    def tracer(frame, event, arg):
+        if event == "call" and frame.f_code.co_filename.startswith(root):
+            seen[0] += 1
+            if seen[0] == k:
+                sys.settrace(None)
+                raise _Abort()
+        return None
+
+    sys.settrace(tracer)
+    try:
+        fn()
+        return True, seen[0]
+    except _Abort:
+        return False, seen[0]
+    finally:
+        sys.settrace(None)
+
+
+ABORT_READBACK = [[(0,)], [(0, 1)], [(1, 0), (0, 1)]]
+# (operation, basis, cold table caches?)
+ABORT_OPS_QUICK = [("scratch", [(0, 1)], False), ("scratch", [(0,)], True), ("db", [(0,)], False),
+                   ("fin", [(0,)], False), ("fin_db", [(0,)], False), ("create", 1, False),
+                   ("load", [(0,)], False)]
+ABORT_OPS_THOROUGH = ABORT_OPS_QUICK + [
+    ("scratch", [(0, 1)], True), ("db", [(0, 1)], False), ("fin", [(0, 1)], False),
+    ("fin_db", [(0, 1)], False), ("db", [(1, 0), (0, 1)], False), ("fin_db", [(1, 0), (0, 1)], False),
+    ("scratch", [(1, 0), (0, 1)], False), ("create", 2, False), ("load", [(0, 1)], False)]
+TABLE_FUNCS = ("pinword_to_perm_mapping", "perm_to_pinword_mapping",
+               "perm_to_strict_pinword_mapping", "make_dfa_for_m")
+
+
+def _files_unparseable(d):
+    """Names of database files whose first line is not a complete automaton text."""
+    import sys
+    ns = dict(vars(sys.modules["permuta.permutils.pin_words"]))
+    bad = []
+    for root, _, names in os.walk(d):
+        for nm in names:
+            p = os.path.join(root, nm)
+            try:
+                with open(p) as fh:
+                    to_plain(eval(fh.readline().strip(), ns))  # noqa: S307
+            except Exception:  # noqa
+                bad.append(os.path.relpath(p, d))
+    return bad
+
+
+class AbortModel:
+    def __init__(self, tag):
+        PW, Perm = _PW(), _P()
+        self.tag = tag
+        fresh_dir(tag + "-ref")
+        _clear(PW.load_dfa_for_perm)
+        if BASE_ATTRS is not None:
+            _restore_attrs(BASE_ATTRS)
+        self.RB = [[Perm(p) for p in b] for b in ABORT_READBACK]
+        self.ref = [to_plain(PW.make_dfa_for_basis_from_pinwords(list(b))) for b in self.RB]
+        self.fin = [F.rejected_language_shape(r, F.m_reference())[0] for r in self.ref]
+        self.root = os.path.join(os.path.abspath(_repo_root()), "permuta") + os.sep
+
+    def operation(self, op):
+        PW, Perm = _PW(), _P()
+        kind, arg, _ = op
+        if kind == "create":
+            return lambda: PW.create_dfa_db_for_length(arg)
+        B = [Perm(tuple(p)) for p in arg]
+        if kind == "scratch":
+            return lambda: PW.make_dfa_for_basis(list(B))
+        if kind == "db":
+            return lambda: PW.make_dfa_for_basis(list(B), use_db=True)
+        if kind == "fin":
+            return lambda: PW.has_finite_pinperms(list(B))
+        if kind == "fin_db":
+            return lambda: PW.has_finite_pinperms(list(B), use_db=True)
+        if kind == "load":
+            return lambda: [PW.load_dfa_for_perm(b) for b in B]
+        raise ValueError(kind)
+
+    def attempt(self, op, k):
+        PW = _PW()
+        d = fresh_dir(self.tag)
+        _clear(PW.load_dfa_for_perm)
+        if BASE_ATTRS is not None:
+            _restore_attrs(BASE_ATTRS)
+        if op[2]:
+            for name in TABLE_FUNCS:
+                _clear(getattr(PW, name))
+        fn = self.operation(op)
+        return d, _run_with_abort(fn, k, self.root)
+
+    def read_back(self, d):
+        """None or a description of what is wrong."""
+        PW = _PW()
+        for j, B in enumerate(self.RB):
+            for name, call in (("make_dfa_for_basis", lambda: PW.make_dfa_for_basis(list(B))),
+                               ("from_db", lambda: PW.make_dfa_for_basis_from_db(list(B)))):
+                word, _ = F.first_difference(self.ref[j], to_plain(call()))
+                if word is not None:
+                    return {"observer": name, "basis": ABORT_READBACK[j],
+                            "differs_from_reference_on": word}
+            for name, call in (("has_finite_pinperms", lambda: PW.has_finite_pinperms(list(B))),
+                               ("has_finite_pinperms_db",
+                                lambda: PW.has_finite_pinperms(list(B), use_db=True))):
+                got = call()
+                if got is not self.fin[j]:
+                    return {"observer": name, "basis": ABORT_READBACK[j], "expected": self.fin[j],
+                            "got": got}
+        return None
+
+    def one(self, part, op, k):
+        import signal
+        case = {"op": [op[0], op[1], op[2]], "abort_at_call": k}
+        d, (finished, _) = self.attempt(op, k)
+        signal.alarm(30)
+        try:
+            bad = self.read_back(d)
+        except TimeoutError as exc:
+            signal.alarm(0)
+            part.violation("abort", case, {"hang": str(exc)})
+            return
+        except Exception as exc:  # noqa
+            signal.alarm(0)
+            partial = _files_unparseable(d)
+            if partial:
+                part.bump("abort_partial_file_reported")     # reported, not silently wrong
+                part.add(1, 1)
+            else:
+                part.violation("abort", case, {"exception_in_read_back": repr(exc)})
+            return
+        signal.alarm(0)
+        part.add(1, 0 if finished else 1)
+        part.bump("abort_injections")
+        if bad is not None:
+            part.violation("abort", case, bad)
+
+
+def _repo_root():
+    from ..core import REPO
+    return REPO
+
+
+def shard_abort(shard):
+    import signal
+    import sys
+    opi, op, part_i, nparts = shard
+    part = Partial()
+    try:
+        model = AbortModel("a%d_%d" % (opi, part_i))
+    except Exception as exc:  # noqa
+        part.violation("construct", {"route": "abort-reference"}, {"exception": repr(exc)})
+        return part
+
+    def on_alarm(signum, frame):
+        raise TimeoutError("read-back did not finish within 30 s")
+
+    old = signal.signal(signal.SIGALRM, on_alarm)
+    old_hook = sys.unraisablehook
+    sys.unraisablehook = lambda unraisable: None
+    try:
+        _, (_, total) = model.attempt(op, None)
+        if part_i == 0:
+            part.bump("abort_points_total", total)
+        for k in range(1 + part_i, total + 1, nparts):
+            model.one(part, op, k)
+    finally:
+        signal.signal(signal.SIGALRM, old)
+        sys.unraisablehook = old_hook
+    return part
+
+
+def shard_truncate(shard):
+    """E5: every proper prefix of a stored automaton text is put in place of the file; loading it
+    must raise (reported) or give the same language - never another language."""
+    perm, = shard
+    PW, Perm = _PW(), _P()
+    part = Partial()
+    d = fresh_dir("trunc%s" % "".join(map(str, perm)))
+    _clear(PW.load_dfa_for_perm)
+    P = Perm(perm)
+    try:
+        ref = to_plain(PW.load_dfa_for_perm(P))
+    except Exception as exc:  # noqa
+        part.violation("construct", {"route": "load_dfa_for_perm", "perm": perm}, {"exception": repr(exc)})
+        return part
+    files = [os.path.join(r, n) for r, _, ns in os.walk(d) for n in ns]
+    if len(files) != 1:
+        part.violation("truncate", {"perm": perm}, {"files_after_one_load": len(files)})
+        return part
+    with open(files[0]) as fh:
+        text = fh.read()
+    for cut in range(0, len(text)):
+        check_truncated(part, perm, files[0], text, cut, ref)
+    with open(files[0], "w") as fh:
+        fh.write(text)
+    part.bump("truncation_points", len(text))
+    return part
+
+
+def check_truncated(part, perm, path, text, cut, ref):
+    PW, Perm = _PW(), _P()
+    with open(path, "w") as fh:
+        fh.write(text[:cut])
+    _clear(PW.load_dfa_for_perm)
+    part.add(1, 1)
+    try:
+        got = to_plain(PW.load_dfa_for_perm(Perm(perm)))
+    except Exception:  # noqa
+        return                      # reported to the caller: fine
+    word, _ = F.first_difference(ref, got)
+    if word is not None:
+        part.violation("truncate", {"perm": perm, "cut": cut, "length": len(text)},
+                       {"what": "a truncated database file was loaded silently as another language",
+                        "differs_on": word})
+
+
+# --------------------------------------------------------------------------------------------
 # pools
 # --------------------------------------------------------------------------------------------
 
@@ -1081,6 +1526,34 @@ def run(ctx, only=None):
                                  "operations": ["from_pinwords", "from_db", "has_finite_pinperms(use_db)",
                                                 "cache_clear", "create_dfa_db_for_length(1|2)"],
                                  "new_states_per_depth": []}
+    if want("forms"):
+        fb = FORM_BASES_QUICK if quick else FORM_BASES_THOROUGH
+        for i in sorted(range(len(fb)), key=lambda i: -sum(len(q) ** 3 for q in fb[i])):
+            tasks.append(("forms", (i, fb[i])))
+        ctx.bounds["forms"] = {"bases": fb, "forms": FORM_NAMES + ["of_length (where the basis is a whole S_n)"],
+                               "entries": ["make_dfa_for_basis_from_pinwords", "make_dfa_for_basis_from_db",
+                                           "make_dfa_for_basis (keyword, iter, set)", "make_dfa_for_basis(use_db)",
+                                           "has_finite_pinperms default / use_db / dfa", "pinwords_for_basis"]}
+    if want("fresh"):
+        damage = os.environ.get("VERIF_C15_FRESH_TABLES") == "1"
+        fr = [[(0, 1)], [(1, 0), (0, 1)], [(0, 2, 1), (1, 0, 2)]]
+        for i, b in enumerate(fr):
+            tasks.append(("fresh", (i, b, damage)))
+        ctx.bounds["fresh"] = {"bases": fr, "damaged": "list returned by pinwords_for_basis"
+                               + (" + tables returned by the *_mapping functions" if damage else ""),
+                               "tables_flag": damage}
+    if want("abort"):
+        ops = ABORT_OPS_QUICK if quick else ABORT_OPS_THOROUGH
+        nparts = 4
+        for oi, op in enumerate(ops):
+            for pi in range(nparts):
+                tasks.append(("abort", (oi, op, pi, nparts)))
+        tr = [(0, 1)] if quick else [(0,), (0, 1), (0, 2, 1)]
+        for perm in tr:
+            tasks.append(("truncate", (perm,)))
+        ctx.bounds["abort"] = {"operations": [list(o) for o in ops], "read_back_bases": ABORT_READBACK,
+                               "injection": "BaseException at every k-th call event of a permuta frame",
+                               "truncated_files": tr}
     if want("conform"):
         # the few slow ones (patterns of length >= 5) first, the rest simplest first
         order = sorted(range(len(bases)),
@@ -1128,6 +1601,9 @@ def run(ctx, only=None):
         # report the smallest case of every kind first
         ctx.viols.sort(key=lambda v: (len(json.dumps(v["case"].get("basis", v["case"]))),
                                       len(json.dumps(v["case"]))))
+        if "abort" in ctx.bounds:
+            ctx.bounds["abort"]["injection_points"] = ctx.counters.get("abort_points_total", 0)
+            ctx.bounds["abort"]["truncation_points"] = ctx.counters.get("truncation_points", 0)
         ctx.section("automata", tasks=len(tasks), bases=len(bases) if want("conform") else 0,
                     history_states=hs, history_transitions=ht)
 
@@ -1145,15 +1621,26 @@ def shard_any(task):
         return shard_pinwords(payload)
     if kind == "history":
         return shard_history(payload)
+    if kind == "forms":
+        return shard_forms(payload)
+    if kind == "fresh":
+        return shard_fresh(payload)
+    if kind == "abort":
+        return shard_abort(payload)
+    if kind == "truncate":
+        return shard_truncate(payload)
     raise ValueError(kind)
 
 
 # --------------------------------------------------------------------------------------------
 
 def replay(ctx, rec):
-    global WORK
+    global WORK, BASE_ATTRS
     WORK = ctx.work
     os.chdir(ctx.work)
+    _PW()
+    if BASE_ATTRS is None:
+        BASE_ATTRS = _plain_attrs()      # a replay starts in a fresh interpreter: pristine
     sub, case = rec["sub"], rec["case"]
     if sub in ("conform", "equiv", "finite", "construct") and "basis" in case:
         basis = [tuple(p) for p in case["basis"]]
@@ -1208,6 +1695,54 @@ def replay(ctx, rec):
             if viols:
                 ctx.violation("history", case, viols[0])
                 break
+    elif sub == "forms":
+        part = Partial()
+        check_forms(part, case["basis"], "replay", case["form"], case["entry"])
+        for v in part.viols[:1]:
+            ctx.violation(v["sub"], case, v["detail"])
+    elif sub == "fresh":
+        part = Partial()
+        check_fresh(part, case["basis"], "replay", case.get("damage_tables", False))
+        for v in part.viols:
+            if v["case"].get("after") == case.get("after"):
+                ctx.violation("fresh", case, v["detail"])
+                break
+    elif sub == "abort" or (sub == "construct" and case.get("route") == "abort-reference"):
+        import signal
+        import sys
+
+        def on_alarm(signum, frame):
+            raise TimeoutError("read-back did not finish within 30 s")
+
+        old = signal.signal(signal.SIGALRM, on_alarm)
+        hook = sys.unraisablehook
+        sys.unraisablehook = lambda unraisable: None
+        try:
+            model = AbortModel("replay")
+            if sub == "abort":
+                op = (case["op"][0], case["op"][1], case["op"][2])
+                model.one(ctx, op, case["abort_at_call"])
+        except Exception as exc:  # noqa
+            ctx.violation(sub, case, {"exception": repr(exc)})
+        finally:
+            signal.signal(signal.SIGALRM, old)
+            sys.unraisablehook = hook
+    elif sub == "truncate":
+        PW, Perm = _PW(), _P()
+        perm = tuple(case["perm"])
+        d = fresh_dir("replay")
+        _clear(PW.load_dfa_for_perm)
+        ref = to_plain(PW.make_dfa_for_perm(Perm(perm)))
+        PW.load_dfa_for_perm(Perm(perm))
+        files = [os.path.join(r, n) for r, _, ns in os.walk(d) for n in ns]
+        if "cut" in case and len(files) == 1:
+            with open(files[0]) as fh:
+                text = fh.read()
+            # the text differs from run to run (state numbering): cut at the same fraction
+            cut = min(len(text) - 1, case["cut"])
+            check_truncated(ctx, perm, files[0], text, cut, ref)
+        elif len(files) != 1:
+            ctx.violation("truncate", case, {"files_after_one_load": len(files)})
     elif sub == "uncaught-library-exception" and "shard" in case:
         # a library exception that escaped every call-site handler: run that shard again
         kind, payload = case["shard"]
